@@ -459,11 +459,12 @@ Qed.
    attributes changed, everything else kept ---------- *)
 Definition is_simple (t : ty) : Prop :=
   match t with TRef _ _ _ | TScalar _ _ _ _ => True | _ => False end.
+Definition is_ref_t (t : ty) : Prop := match t with TRef _ _ _ => True | _ => False end.
 Definition keeps_null (t t' : ty) : Prop := nullable (ty_attrs t) = true -> nullable (ty_attrs t') = true.
 
 Inductive srel : ty -> ty -> Prop :=
 | SR_same t : srel t t
-| SR_simple t l : is_simple l -> srel t l
+| SR_simple t l : is_ref_t l -> srel t l
 | SR_setattrs t t' a : srel t t' -> srel t (set_attrs t' a)
 | SR_array a a' v v' : srel v v' -> srel (TArray a v) (TArray a' v')
 | SR_map a a' i i' v v' : srel i i' -> srel v v' -> srel (TMap a i v) (TMap a' i' v')
@@ -511,7 +512,7 @@ Section SrelPres.
   Variable U : ty -> ty -> Prop.       (* what the union-level clause may use of related branches *)
   Hypothesis HU : forall t t', srel t t' -> U t t'.
   Hypothesis sp_attrs : forall inter t a, p inter (set_attrs t a) = p inter t.
-  Hypothesis sp_simple : forall inter l, is_simple l -> p inter l = false.
+  Hypothesis sp_simple : forall inter l, is_ref_t l -> p inter l = false.
   Hypothesis sp_array : forall inter a a' v v', p inter (TArray a v) = false -> p inter (TArray a' v') = false.
   Hypothesis sp_map : forall inter a a' i i' v v', p inter (TMap a i v) = false -> p inter (TMap a' i' v') = false.
   Hypothesis sp_inter : forall inter a a' bs bs', p inter (TInter a bs) = false -> p inter (TInter a' bs') = false.
